@@ -16,6 +16,7 @@ import numpy as np
 ID = "C10"
 FLAVOUR = "san"
 LEVEL = "exploration"
+THOROUGH_MULT = 4.0       # deepens the sampled strata of the thorough tier (measured: about ten minutes on 16 cores)
 RULE = (
     "seeded generator: base alphabet of 2-6 symbols (LetterAlphabet or generic Alphabet, sometimes a "
     "257-300 symbol alphabet for the uint16 code path), k 2-5, contiguous or spaced model (string, list, "
